@@ -350,6 +350,24 @@ def tblOK (tbl : List (Bytes × PEntry)) : Bool :=
     | some (_, _, above, inf32) => !inf32 || above
     | none => true)
 
+def disjointVals : List Val → List Val → List Val → Bool
+  | i :: is, j :: js, c :: cs => (j == i || c == i) && disjointVals is js cs
+  | _, _, _ => true
+
+/-- the assumption of the body model, checked on every case: the fields the decoder changes are fields the
+    value sources of the case leave alone -/
+def disjoint (init dec vals : Val) : Bool :=
+  match init, dec, vals with
+  | .struct is, .struct js, .struct cs => disjointVals is js cs
+  | _, _, _ => true
+
+def stepsDisjoint (P : Params) (cfg : Cfg) (fs : List Fld) (init : Val) (steps : List Step) : Bool :=
+  match bindMulti P cfg fs init (Spec.srcsOf steps) with
+  | .ok v => (Spec.bodiesOf steps).all fun r => match decodeBody r with
+    | .ok dv => disjoint init dv v
+    | .error _ => true
+  | _ => true
+
 def stepJAll (id : String) (c : JCase) (obs : List String) : String :=
   match runP pObsAllB obs with
   | some o =>
@@ -359,6 +377,7 @@ def stepJAll (id : String) (c : JCase) (obs : List String) : String :=
         s!"{id} bad-case preconditions"
       else
         let P := lookupP c.tbl
+        if !stepsDisjoint P c.cfg fs c.init c.steps then s!"{id} bad-case body and value sources overlap" else
         let m := bindStepsAll P c.cfg fs c.init c.steps
         verdict id (encOutAllB m == encObsAllB o) (Spec.specStepsAll P c.cfg fs c.init c.steps o) "-" (encOutAllB m)
     | _, _ => s!"{id} bad-case type"
@@ -373,6 +392,7 @@ def stepJPlain (id : String) (c : JCase) (obs : List String) : String :=
         s!"{id} bad-case preconditions"
       else
         let P := lookupP c.tbl
+        if !stepsDisjoint P c.cfg fs c.init c.steps then s!"{id} bad-case body and value sources overlap" else
         let m := bindSteps P c.cfg fs c.init c.steps
         verdict id (encBOut m == encBObs o) (Spec.specSteps P c.cfg fs c.init c.steps o) "-" (encBOut m)
     | _, _ => s!"{id} bad-case type"
@@ -397,6 +417,12 @@ def stepH (id : String) (inp obs : List String) : String :=
         s!"{id} bad-case preconditions"
       else
         let P := lookupP c.tbl
+        let overlap := match bindMulti P Cfg.default fs c.init c.http.params with
+          | .ok v => c.http.docs.any fun d => match d.lax with
+            | .ok dv => !disjoint c.init dv v
+            | _ => false
+          | _ => false
+        if overlap then s!"{id} bad-case body and value sources overlap" else
         let m := appRun P fs c.init c.http c.ops
         let reads := c.http.bodyTags && classifyCT c.http.ctype == .json &&
           (match bindMulti P Cfg.default fs c.init c.http.params with | .ok _ => true | _ => false)
